@@ -134,6 +134,9 @@ func (obj *SparseInt32Vector) SET(x *SparseInt32Vector) {
   }
 }
 func (obj *SparseInt32Vector) SLICE(i, j int) *SparseInt32Vector {
+  if i < 0 || i > j || j > obj.n {
+    panic(fmt.Errorf("slice (%d:%d) out of bounds for vector of dimension %d", i, j, obj.n))
+  }
   r := nilSparseInt32Vector(j-i)
   for it := obj.indexIteratorFrom(i); it.Ok(); it.Next() {
     if it.Get() >= j {
